@@ -5,7 +5,7 @@ import ast
 
 from .. import AnalysisError
 from ..model import ClassInfo
-from ..summary import contains, summarize
+from ..summary import contains, content, summarize
 
 ST = "pymbolic.imperative.statement"
 TR = "pymbolic.imperative.transform"
@@ -48,6 +48,8 @@ def run(ctx):
     _check_disambiguate(ctx, model)
     _check_used_identifiers(ctx, model)
     _check_closure_loop(ctx, model)
+    _streams_consumed_once(ctx, model)
+    _dot_ids_quoted_alike(ctx, model)
 
 
 # ---------------------------------------------------------------------------
@@ -422,6 +424,8 @@ def _check_fuse(ctx, model):
     m3, fn3 = model.func(f"{TR}:disambiguate_and_fuse")
     ok = False
     pss3 = [ps for ps in summarize(fn3, plain=True) if ps.term == "return"]
+    if len(pss3) == 1:
+        pss3[0].retval = content(pss3[0].retval)
     if len(pss3) == 1 and pss3[0].retval[0] == "lit" \
             and len(pss3[0].retval[2]) == 3:
         pa, pb, pf = [x.arg for x in fn3.args.args][:3]
@@ -458,7 +462,8 @@ def _check_disambiguate(ctx, model):
     for ps in summarize(fn, plain=True):
         if ps.term != "return":
             continue
-        rv = ps.retval
+        # (a stream materialised with list(...) holds the same statements)
+        rv = content(ps.retval)
         if not (rv[0] == "lit" and len(rv[2]) == 2):
             raise AnalysisError("disambiguate_identifiers: return is not a pair")
         stmts, subst = rv[2]
@@ -511,11 +516,13 @@ def _check_disambiguate(ctx, model):
             return isinstance(v, tuple) and (
                 (v[0] == "call" and v[1] == filt and v[2] == (K,))
                 or (v[0] == "inlined" and v[1] == filt))
-        filt_ok = any(pol and is_filter_call(v) for _, pol, v in ps.conds)
+        filt_ok = any(pol and is_filter_call(
+            content(v) if isinstance(v, tuple) else v) for _, pol, v in ps.conds)
         # ... or as the filter of a comprehension
         if not filt_ok and len(subst) > 4:
-            filt_ok = any(is_filter_call(getattr(c, "val", None))
-                          for c in subst[4])
+            filt_ok = any(is_filter_call(content(c.val) if isinstance(
+                getattr(c, "val", None), tuple) else getattr(c, "val", None))
+                for c in subst[4])
         ctx.ob("P/disambiguate/filter", filt_ok, loc,
                "a clash is renamed only if the caller's filter accepts it"
                if filt_ok else
@@ -567,7 +574,7 @@ def _fresh_by_retry_loop(fn, V, K, union):
         for _, pol, c in ps.conds:
             if isinstance(c, tuple) and c[0] == "compare" and c[1] == ("In",) \
                     and not pol:
-                u = c[3][0]
+                u = content(c[3][0])
                 if u in union or contains(u, lambda t: t in union):
                     seeded = True
     return wraps and body_ok and len(inits) == 1 and seeded and all(
@@ -746,3 +753,99 @@ def _check_closure_loop(ctx, model):
         and not (isinstance(c.target, ast.Name) and c.target.id == flag))]
     ctx.ob("P/closure/adds-edges", bool(adds), loc,
            "the sweep adds the discovered edges")
+
+
+def _streams_consumed_once(ctx, model):
+    """a statement stream may be a one-shot iterable (a generator): a function
+    that walks a stream parameter twice sees nothing the second time.  Each
+    stream parameter is either materialised first (p = list(p) / tuple(p) as
+    the first thing done with it) or used at most once."""
+    n = 0
+    for fname, streams in (("disambiguate_identifiers", 2),
+                           ("disambiguate_and_fuse", 2),
+                           ("fuse_statement_streams_with_unique_ids", 2)):
+        m, fn = model.func(f"{TR}:{fname}")
+        params = [a.arg for a in fn.args.args][:streams]
+        for p_ in params:
+            n += 1
+            uses = []
+            materialised = False
+            for st in fn.body:
+                if isinstance(st, ast.Assign) and len(st.targets) == 1 and \
+                        isinstance(st.targets[0], ast.Name) and \
+                        st.targets[0].id == p_ and isinstance(st.value, ast.Call) \
+                        and ast.unparse(st.value.func) in ("list", "tuple") and \
+                        len(st.value.args) == 1 and ast.unparse(
+                            st.value.args[0]) == p_ and not uses:
+                    materialised = True
+                    break
+                for x in ast.walk(st):
+                    if isinstance(x, ast.Name) and x.id == p_ and isinstance(
+                            x.ctx, ast.Load):
+                        uses.append(x)
+                if any(isinstance(x, ast.Name) and x.id == p_
+                       for a_ in ast.walk(st) if isinstance(a_, ast.Assign)
+                       for t in a_.targets for x in ast.walk(t)):
+                    break        # rebound to something else: later uses are
+                    #              uses of the new value
+            ok = materialised or len(uses) <= 1
+            ctx.ob(f"P/{fname}/stream-walked-once:{p_}", ok, m.loc(fn),
+                   f"{p_} is materialised first" if materialised else
+                   f"{p_} is walked once" if ok else
+                   f"{fname} walks the stream '{p_}' {len(uses)} times without "
+                   "materialising it: given as a generator, the second walk is "
+                   "empty (disambiguate_identifiers([x <- 1], (s for s in "
+                   "[x <- 2])) returns no statements)")
+    ctx.floor("stream parameters", n, 6)
+
+
+def _dot_ids_quoted_alike(ctx, model):
+    """A node is declared as "<id>" [...]; dot reads a quoted and an unquoted
+    spelling as the same id only for plain identifiers.  The edge lines must
+    spell the ids the way the node lines do, or the edges of a statement whose
+    id is not a plain identifier (a blank, a dash) attach to other nodes / are
+    not dot at all."""
+    m, fn = model.func("pymbolic.imperative.utils:get_dot_dependency_graph")
+
+    def template(e):
+        """string-building expression -> text with {} for each hole"""
+        if isinstance(e, ast.JoinedStr):
+            return "".join(v.value if isinstance(v, ast.Constant) else "{}"
+                           for v in e.values)
+        if isinstance(e, ast.Call) and isinstance(e.func, ast.Attribute) and \
+                e.func.attr == "format" and isinstance(e.func.value, ast.Constant):
+            return e.func.value.value
+        if isinstance(e, ast.BinOp) and isinstance(e.op, ast.Mod) and \
+                isinstance(e.left, ast.Constant):
+            return e.left.value.replace("%s", "{}")
+        return None
+    node_t, edge_t = [], []
+    for c in ast.walk(fn):
+        if isinstance(c, ast.Call) and isinstance(c.func, ast.Attribute) and \
+                c.func.attr == "append" and len(c.args) == 1:
+            t = template(c.args[0])
+            if t is None:
+                continue
+            if "->" in t:
+                edge_t.append((t, c))
+            elif "[" in t and "{}" in t:
+                node_t.append((t, c))
+    if not node_t or not edge_t:
+        raise AnalysisError("get_dot_dependency_graph: node / edge lines not "
+                            "recognised")
+
+    def quoted(t, k):
+        """is the k-th hole wrapped in double quotes"""
+        parts = t.split("{}")
+        return parts[k].endswith('"') and parts[k + 1].startswith('"')
+    nq = quoted(node_t[0][0], 0)
+    for t, c in edge_t:
+        same = quoted(t, 0) == nq and quoted(t, 1) == nq
+        ctx.ob(f"T/dot/edge-ids-spelled-like-node-ids:{t.strip()[:24]}", same,
+               m.loc(c),
+               "edge lines spell statement ids as the node lines do" if same
+               else f"nodes are declared as {node_t[0][0].split(' ')[0]} but "
+               f"edges are written as '{t}': for an id that is not a plain "
+               "identifier ('s 2', 's-1') the edge does not join the declared "
+               "nodes (or is not dot at all), so the drawn graph is not the "
+               "transitive reduction")
